@@ -203,4 +203,19 @@ theorem C11_close_and_poll_skeleton :
     skelOf backendFile "poll_pending" = ["is_closed", "has_signals", "pending"] ∧
     skelOf backendFile "poll_signal" = ["is_closed", "iter.next", "poll_pending", "is_closed"] := by decide
 
+/-- **C11.adapter_skeleton** — tie to the source (regenerated) of the async adapters: `poll_next` of
+signal-hook-tokio and signal-hook-async-std is one `poll_signal` whose readiness callback is one
+`poll_read` of one byte *with the task's context* (so that an answer of "nothing" has registered the
+task's waker with the reactor) and maps Signal / Closed / Pending to Ready(Some) / Ready(None) / Pending
+with nothing in between - no cached answer, no early return. Together with `C11_pending_means_armed`
+(Pending only after the callback answered "nothing" in this very call) this is why a `Pending` stream is
+woken by the next signal or by `close()`. -/
+theorem C11_adapter_skeleton :
+    skelOf "signal-hook-tokio/src/lib.rs" "has_signals" = ["poll_read", "pending.false", "ready.true", "ready.err"] ∧
+    skelOf "signal-hook-async-std/src/lib.rs" "has_signals" = ["poll_read", "pending.false", "ready.true", "ready.err"] ∧
+    skelOf "signal-hook-tokio/src/lib.rs" "poll_next" =
+      ["poll_signal.has_signals", "signal.some", "closed.none", "pending.pending", "err.panic"] ∧
+    skelOf "signal-hook-async-std/src/lib.rs" "poll_next" =
+      ["poll_signal.has_signals", "signal.some", "closed.none", "pending.pending", "err.panic"] := by decide
+
 end SigHook.Iter
